@@ -20,7 +20,8 @@ use crate::{
 
 #[derive(Clone, Debug, Serialize, Deserialize)]
 pub struct PolicyCase {
-    /// 0 policy never, 1 policy always (merge trigger cases), 2 interval sync
+    /// 0 policy never, 1 policy always (merge trigger cases), 2 interval sync, 3 policy always with
+    /// one transient fault in the first background merge pass (the next check must merge)
     pub mode: u8,
     pub interval_ms: u16,
     pub jitter_pct: u8,
@@ -39,7 +40,7 @@ pub struct PolicyCase {
 
 fn strategy(_tier: Tier) -> BoxedStrategy<PolicyCase> {
     (
-        prop_oneof![2 => Just(0u8), 5 => Just(1u8), 2 => Just(2u8)],
+        prop_oneof![2 => Just(0u8), 5 => Just(1u8), 2 => Just(2u8), 2 => Just(3u8)],
         20u16..200,
         prop_oneof![Just(0u8), 1u8..100, Just(100u8)],
         prop_oneof![Just(2u64 << 30), 200u64..2000],
@@ -114,6 +115,69 @@ struct Run {
     nontrivial: bool,
 }
 
+/// Policy always, triggers exceeded, and the first background merge pass fails once (transient
+/// ENOSPC when it creates its hint file): the triggers stay exceeded, so a later check must merge.
+#[allow(clippy::too_many_arguments)]
+fn failed_pass_case(c: &PolicyCase, env: &Env, dir: &std::path::Path, base_cfg: &StoreCfg, base_threads: usize, worst_dead: u64, worst_frag: f64, run: &mut Run) {
+    run.labels.push("policy-always-first-pass-fails".into());
+    if worst_dead == 0 {
+        // nothing dead: no trigger can be exceeded with this pattern
+        return;
+    }
+    let interval = Duration::from_millis(c.interval_ms as u64);
+    let jitter = c.jitter_pct as f64 / 100.0;
+    let merge = serde_json::json!({
+        "policy": "always",
+        "check_interval_ms": c.interval_ms,
+        "check_jitter": jitter,
+        "triggers": { "fragmentation": 1.0, "dead_bytes": 0 },
+    });
+    let files_before = data_file_names(dir);
+    shim::register(&env.scratch);
+    shim::inject_arm_hint_create(0, libc::ENOSPC);
+    let t0 = Instant::now();
+    let kv = match catch(|| config_json(base_cfg, dir, Some(merge), None).open()) {
+        Ok(Ok(kv)) => kv,
+        _ => {
+            shim::inject_disarm();
+            run.fail = Some(("open-failed".into(), "reopen with the policy failed".into(), false));
+            return;
+        }
+    };
+    // a completed merge removes the files it merged
+    let deadline = interval.mul_f64(1.0 + jitter) * 3 + Duration::from_secs(2);
+    let mut merged = None;
+    while t0.elapsed() < deadline {
+        if files_before.iter().any(|f| !dir.join(f).exists()) {
+            merged = Some(t0.elapsed());
+            break;
+        }
+        std::thread::sleep(Duration::from_millis(1));
+    }
+    let fired = shim::inject_disarm();
+    if fired.is_some() {
+        run.labels.push("first-merge-pass-failed-as-planned".into());
+        run.nontrivial = true;
+    }
+    if merged.is_none() {
+        run.fail = Some((
+            "merge-did-not-run-after-failed-pass".into(),
+            format!(
+                "policy always, dead bytes {} and fragmentation {:.3} exceed the triggers; the first background merge pass {}; no merge completed within {:?} (3 check intervals of {} ms with jitter {:.2}, plus 2 s)",
+                worst_dead,
+                worst_frag,
+                if fired.is_some() { "failed once (transient ENOSPC creating its hint file)" } else { "was not disturbed" },
+                deadline,
+                c.interval_ms,
+                jitter
+            ),
+            true,
+        ));
+    }
+    drop(kv);
+    wait_bg_exit(base_threads);
+}
+
 fn run_once(c: &PolicyCase, env: &Env) -> Run {
     let mut run = Run {
         fail: None,
@@ -183,9 +247,12 @@ fn run_once(c: &PolicyCase, env: &Env) -> Run {
     let interval = Duration::from_millis(c.interval_ms as u64);
     let jitter = c.jitter_pct as f64 / 100.0;
 
-    match c.mode % 3 {
+    match c.mode % 4 {
+        3 => {
+            failed_pass_case(c, env, &dir, &base_cfg, base_threads, worst_dead, worst_frag, &mut run);
+        }
         0 | 1 => {
-            let always = c.mode % 3 == 1;
+            let always = c.mode % 4 == 1;
             run.labels.push(if always { "policy-always".into() } else { "policy-never".into() });
             run.labels.push(if exceeded { "trigger-exceeded".into() } else { "trigger-not-exceeded".into() });
             if near_boundary {
@@ -349,7 +416,7 @@ pub fn prop() -> Prop<PolicyCase> {
     Prop {
         id: "C18",
         level: "exploration",
-        rule: "Cases: a write pattern (2-23 keys set, 0-23 overwritten, 0-7 deleted, small or 2 GiB max_file_size) written with all background activity off; an independent decoder measures the worst per-file dead bytes and fragmentation; the store is then reopened with policy never or always, check interval 20-200 ms, jitter 0-1, and triggers placed relative to the measured values: far below (exceeded), exactly at the measured value (not exceeded - the trigger rule is a strict 'exceeds'), just below (exceeded), far above. Oracles: never -> no merge evidence (no new hint file, no data file removed) during 6 intervals; always + exceeded -> merge evidence within interval*(1+jitter)+2 s with no client action, then a quiet period; always + not exceeded -> none during 6 intervals. Interval sync (10-100 ms): under the LD_PRELOAD recorder the active file must be fsynced at least 3 times in a window of 10 intervals. Non-trivial: a trigger within one unit of the measured value, a policy-never case, an observed merge followed by a quiet period, or a sync window; distinct = distinct hash of the case.",
+        rule: "Cases: a write pattern (2-23 keys set, 0-23 overwritten, 0-7 deleted, small or 2 GiB max_file_size) written with all background activity off; an independent decoder measures the worst per-file dead bytes and fragmentation; the store is then reopened with policy never or always, check interval 20-200 ms, jitter 0-1, and triggers placed relative to the measured values: far below (exceeded), exactly at the measured value (not exceeded - the trigger rule is a strict 'exceeds'), just below (exceeded), far above. Oracles: never -> no merge evidence (no new hint file, no data file removed) during 6 intervals; always + exceeded -> merge evidence within interval*(1+jitter)+2 s with no client action, then a quiet period; always + not exceeded -> none during 6 intervals. A fourth mode fails the first background merge pass once (transient ENOSPC injected by the shim when it creates its hint file) and requires a completed merge within 3 intervals + 2 s, since the triggers stay exceeded. Interval sync (10-100 ms): under the LD_PRELOAD recorder the active file must be fsynced at least 3 times in a window of 10 intervals. Non-trivial: a trigger within one unit of the measured value, a policy-never case, an observed merge followed by a quiet period, or a sync window; distinct = distinct hash of the case.",
         assumptions: &[
             "positive deadlines carry 2 s of slack and are re-tried once before being reported; negative windows are 6 check intervals",
             "the merge window policy is not generated (the property does not mention it)",
